@@ -165,3 +165,157 @@ def LOp.isRejection : LOp → Bool
   | _ => false
 
 end GmQuic.Sid
+
+namespace GmQuic.Sid
+
+/-! ## Local: step lemmas -/
+
+theorem Local.step_alloc_cases (l : Local) (d : Dir) :
+    ((l.step (.alloc d)).1.opened = l.opened ∧ (l.step (.alloc d)).1.unalloc = l.unalloc ∧
+      (l.step (.alloc d)).1.max = l.max ∧ (l.step (.alloc d)).1.role = l.role ∧
+      (l.step (.alloc d)).1.poisoned = l.poisoned ∧ ∀ s, (l.step (.alloc d)).2 ≠ .sid s) ∨
+    (l.unalloc.get d < l.max.get d ∧ l.unalloc.get d ≤ LIMIT ∧ l.poisoned = false ∧
+      (l.step (.alloc d)).2 = .sid (sid l.role d (l.unalloc.get d)) ∧
+      (l.step (.alloc d)).1.opened = l.opened ++ [sid l.role d (l.unalloc.get d)] ∧
+      (l.step (.alloc d)).1.unalloc = l.unalloc.set d (l.unalloc.get d + 1) ∧
+      (l.step (.alloc d)).1.max = l.max ∧ (l.step (.alloc d)).1.role = l.role ∧
+      (l.step (.alloc d)).1.poisoned = false) := by
+  simp only [Local.step]
+  by_cases hp : l.poisoned = true
+  · left; simp [hp]
+  · by_cases h1 : l.unalloc.get d > LIMIT
+    · left; simp [hp, h1]
+    · by_cases h2 : l.unalloc.get d < l.max.get d
+      · right; simp [hp, h1, h2]; omega
+      · left; simp [hp, h1, h2]
+
+/-- `recv_max_streams_frame` / `revise_max_streams` never touch the cursor or the ghost list. -/
+theorem Local.step_limit_frame (l : Local) (op : LOp) (h : ∀ d, op ≠ .alloc d) :
+    (l.step op).1.opened = l.opened ∧ (l.step op).1.unalloc = l.unalloc ∧ (l.step op).1.role = l.role := by
+  cases op with
+  | alloc d => exact absurd rfl (h d)
+  | maxStreams d v =>
+    simp only [Local.step]
+    split
+    · simp
+    · split
+      · simp
+      · rename_i l' w he
+        obtain ⟨h1, h2, h3, _⟩ := Local.increase_frame he
+        exact ⟨h3, h2, h1⟩
+  | revise rej b u =>
+    simp only [Local.step]
+    split
+    · simp
+    · split
+      · cases rej <;> simp
+      · rename_i l1 w1 he1
+        obtain ⟨a1, a2, a3, _⟩ := Local.increase_frame he1
+        split
+        · cases rej <;> simp_all
+        · rename_i l2 w2 he2
+          obtain ⟨b1, b2, b3, _⟩ := Local.increase_frame he2
+          cases rej <;> simp_all
+
+theorem Local.inv_new {role : Role} {mb mu : Nat} {l : Local} (h : Local.new role mb mu = some l) : l.Inv := by
+  unfold Local.new at h
+  split at h
+  · injection h with h; subst h; intro d; cases d <;> rfl
+  · cases h
+
+theorem Local.inv_step (l : Local) (op : LOp) (h : l.Inv) : (l.step op).1.Inv := by
+  cases op with
+  | alloc d =>
+    rcases Local.step_alloc_cases l d with ⟨h1, h2, _, h4, _⟩ | ⟨_, _, _, _, h1, h2, _, h4, _⟩
+    · intro d'; rw [h1, h2, h4]; exact h d'
+    · intro d'
+      rw [h1, h2, h4, ofDir, List.filter_append]
+      by_cases hd : d' = d
+      · subst hd
+        have := h d'
+        rw [ofDir] at this
+        rw [this, Per.get_set_same]
+        have e := idsFrom_append l.role d' 0 (l.unalloc.get d') 1
+        rw [← e]
+        congr 1
+        simp [idsFrom, sidDir_sid]
+      · rw [Per.get_set_ne _ _ hd]
+        have : List.filter (fun s => decide (sidDir s = d')) [sid l.role d (l.unalloc.get d)] = [] := by
+          simp [sidDir_sid, Ne.symm hd]
+        rw [this, List.append_nil]
+        exact h d'
+  | maxStreams d v =>
+    obtain ⟨h1, h2, h3⟩ := Local.step_limit_frame l (.maxStreams d v) (by intro d' h; cases h)
+    intro d'; rw [h1, h2, h3]; exact h d'
+  | revise rej b u =>
+    obtain ⟨h1, h2, h3⟩ := Local.step_limit_frame l (.revise rej b u) (by intro d' h; cases h)
+    intro d'; rw [h1, h2, h3]; exact h d'
+
+theorem Local.inv_run (l : Local) (ops : List LOp) (h : l.Inv) : (l.run ops).Inv := by
+  induction ops generalizing l with
+  | nil => exact h
+  | cons op ops ih => exact ih _ (Local.inv_step l op h)
+
+/-- Without a 0-RTT rejection the limit only grows, so the cursor stays below it. -/
+theorem Local.within_step (l : Local) (op : LOp) (hr : op.isRejection = false) (h : l.Within) :
+    (l.step op).1.Within := by
+  cases op with
+  | alloc d =>
+    rcases Local.step_alloc_cases l d with ⟨_, h2, h3, _⟩ | ⟨hlt, _, _, _, _, h2, h3, _⟩
+    · intro d'; rw [h2, h3]; exact h d'
+    · intro d'; rw [h2, h3, Per.get_set]; split
+      · rename_i e; subst e; omega
+      · exact h d'
+  | maxStreams d v =>
+    simp only [Local.step]
+    split
+    · exact h
+    · split
+      · exact h
+      · rename_i l' w he
+        obtain ⟨_, h2, _, _, _, _, h7⟩ := Local.increase_frame he
+        intro d'; rw [h2, h7]; have := h d'
+        by_cases e : d' = d
+        · subst e; simp only [if_true]; omega
+        · simp only [e, if_false]; omega
+  | revise rej b u =>
+    cases rej with
+    | true => simp [LOp.isRejection] at hr
+    | false =>
+      simp only [Local.step]
+      split
+      · exact h
+      · simp only [Bool.false_eq_true, if_false]
+        split
+        · exact h
+        · rename_i l1 w1 he1
+          obtain ⟨_, a2, _, _, _, _, a7⟩ := Local.increase_frame he1
+          have h1 : l1.Within := by
+            intro d'; rw [a2, a7]; have := h d'
+            by_cases e : d' = Dir.bi
+            · subst e; simp only [if_true]; omega
+            · simp only [e, if_false]; omega
+          split
+          · exact h1
+          · rename_i l2 w2 he2
+            obtain ⟨_, b2, _, _, _, _, b7⟩ := Local.increase_frame he2
+            intro d'; rw [b2, b7]; have := h1 d'
+            by_cases e : d' = Dir.uni
+            · subst e; simp only [if_true]; omega
+            · simp only [e, if_false]; omega
+
+theorem Local.within_run (l : Local) (ops : List LOp) (hr : ∀ op ∈ ops, op.isRejection = false)
+    (h : l.Within) : (l.run ops).Within := by
+  induction ops generalizing l with
+  | nil => exact h
+  | cons op ops ih =>
+    exact ih _ (fun o ho => hr o (List.mem_cons_of_mem _ ho))
+      (Local.within_step l op (hr op List.mem_cons_self) h)
+
+theorem Local.within_new {role : Role} {mb mu : Nat} {l : Local} (h : Local.new role mb mu = some l) : l.Within := by
+  unfold Local.new at h
+  split at h
+  · injection h with h; subst h; intro d; cases d <;> simp [Per.get]
+  · cases h
+
+end GmQuic.Sid
